@@ -406,3 +406,56 @@ func init() {
 		return c.ret(runeCountTerm(ex.sliceBytes(c.St, c.Args[0].(SliceV))))
 	}
 }
+
+func init() {
+	Stubs["strings.Repeat"] = func(ex *Exec, c *CallCtx) []*callResult {
+		s := c.Args[0].(StringV)
+		n, ok := ex.concreteInt(c.St, c.Args[1].(*term.Term), true)
+		if !ok || n < 0 || n*len(s.B) > 1<<20 {
+			abort("UNSUPPORTED", "strings.Repeat with a symbolic, negative or huge count")
+		}
+		out := make([]*term.Term, 0, n*len(s.B))
+		for i := 0; i < n; i++ {
+			out = append(out, s.B...)
+		}
+		return c.ret(StringV{B: out})
+	}
+	containsAny := func(ex *Exec, c *CallCtx, b []*term.Term) []*callResult {
+		chars, ok := c.Args[1].(StringV).Concrete()
+		if !ok {
+			abort("UNSUPPORTED", "ContainsAny with a symbolic character set")
+		}
+		var ors []*term.Term
+		for i := 0; i < len(chars); i++ {
+			if chars[i] >= 0x80 {
+				abort("UNSUPPORTED", "ContainsAny with a non-ASCII character set")
+			}
+			for _, x := range b {
+				ors = append(ors, term.Eq(x, term.Const(8, uint64(chars[i]))))
+			}
+		}
+		return c.ret(term.Or(ors...))
+	}
+	Stubs["strings.ContainsAny"] = func(ex *Exec, c *CallCtx) []*callResult {
+		return containsAny(ex, c, c.Args[0].(StringV).B)
+	}
+	Stubs["bytes.ContainsAny"] = func(ex *Exec, c *CallCtx) []*callResult {
+		return containsAny(ex, c, ex.sliceBytes(c.St, c.Args[0].(SliceV)))
+	}
+	indexByte := func(ex *Exec, c *CallCtx, b []*term.Term) []*callResult {
+		ch := c.Args[1].(*term.Term)
+		res := c64(-1)
+		for i := len(b) - 1; i >= 0; i-- {
+			res = term.Ite(term.Eq(b[i], term.Resize(ch, 8, false)), c64(int64(i)), res)
+		}
+		return c.ret(res)
+	}
+	if _, ok := Stubs["strings.IndexByte"]; !ok {
+		Stubs["strings.IndexByte"] = func(ex *Exec, c *CallCtx) []*callResult { return indexByte(ex, c, c.Args[0].(StringV).B) }
+	}
+	if _, ok := Stubs["bytes.IndexByte"]; !ok {
+		Stubs["bytes.IndexByte"] = func(ex *Exec, c *CallCtx) []*callResult {
+			return indexByte(ex, c, ex.sliceBytes(c.St, c.Args[0].(SliceV)))
+		}
+	}
+}
